@@ -22,7 +22,9 @@ RULE = ("Hypothesis draws a square operator (real non-symmetric with conjugate p
         "six uses tol = 0."
         " Further: Hermitian operators declared SelfAdjoint / PSD with 12..30 rows, pbar=True, entries ~1e-8 in single"
         " precision with tol 1e-12; the number of well-defined steps is computed with cola's own stopping rules"
-        " (relative to the first sub-diagonal entry, 1e4 eps of |A q|, absolute clip).")
+        " (relative to the first sub-diagonal entry, 1e4 eps of |A q|, absolute clip)."
+        " Round 5: sub-checks eigs_singular (lower-bidiagonal / nilpotent operators started from e_1) and repeat_large"
+        " (two factorisations with max_iters 320..520, the first re-checked after the second).")
 ASSUMPTIONS = [
     "'m+1 orthonormal columns' is read as: the first min(m'+1, g) columns are orthonormal - no implementation can extend an exhausted Krylov space canonically",
     "tolerances relative to max(1e-10, 10 tol) * max(1,|M|) because cola clips normalisations at tol/2",
